@@ -22,6 +22,46 @@ reg('C01', 'E2',
     'Values outside the alphabets are not covered.', '4 C01')
 
 
+E1_NOTE = ('Trusted: the reference sampler in vf/ref/ssa.py (inverse-transform direct method with the recording rule stated there) and '
+           'the assumption that uniforms map to waiting time / reaction as tau=-ln(u)/Lambda and cumulative buckets (pinned by the '
+           'repository\'s frozen seeded trajectories); hook H1 owning all randomness (every sampler reaches the generator through '
+           'uniform_rv). Nothing is claimed beyond the stated cost bound, horizon and alphabets.')
+
+reg('C05', 'E1',
+    'stateless cost-bounded exploration of the scripted random stream; every reference trace replayed on the real SSASimulator',
+    'The random stream is the only nondeterminism: with hook H1 the simulator is a deterministic function of a finite choice '
+    'sequence. For 13 finite-state networks (all propensity types, orders 0..3, repeated reactants, catalysis, a zero-propensity '
+    'channel between live ones) x grids (uniform / non-uniform) x plain/safe interface, every execution of the reference '
+    'direct-method sampler whose letters cost at most the bound (cells of each waiting-time draw relative to now / next grid time / '
+    'horizon, middle and both edges of every live reaction bucket) is replayed on the implementation, comparing every row and the '
+    'number of draws; the same from every reachable state on and between grid times. Conformance on both edges of every decision '
+    'cell pins the implementation\'s cell boundaries, hence its law, to the reference CME sampler.', E1_NOTE, '4 C05')
+reg('C06', 'E1',
+    'cost-bounded exploration of the scripted stream plus exhaustive raw lattice scripts; invariants checked on the real output',
+    'Every trajectory the real SSA / volume / delay simulators produce for the explored scripts (reference-led tree to cost 2 and all '
+    '4^depth raw scripts, 18 networks x plain/safe) is checked, on the implementation\'s rows alone, for integrality, lattice '
+    'membership of each row change (bounded integer search), exact conservation laws, non-negativity (mass action; all types in '
+    'safe mode), absorption at zero propensity; plus a state-by-state scan of the safe interface\'s requirement table (H3).',
+    'Trusted: stoichiometry by counting (vf/ref/crn.py), exact rational null-space computation. Invariants are mapping-independent; '
+    'coverage is bounded by script depth and the network list.', '4 C06')
+reg('C10', 'E1',
+    'cost-bounded exploration of the scripted stream incl. delay-sampler variates; every trace replayed on DelaySSASimulator',
+    'For 4 delay network shapes x fixed / Gaussian / Gamma delays (from 0 and 0.01 dt to beyond the horizon) x grids x plain/safe, '
+    'every execution of the reference delay simulator within the cost bound (race between reaction, grid time and queue slot; '
+    'Box-Muller and Marsaglia-Tsang variates realising negative, sub-step, lower/upper-slot, on-slot and beyond-horizon delays) is '
+    'replayed on DelaySSASimulator directly and through py_simulate_model(delay=True): rows, draws consumed and the drained final '
+    'queue must agree, and last row + queued deliveries must be x0 + complete firings (mapping-independent). Non-delay simulators '
+    'are replayed against references applying both parts at once; the delay samplers are checked on a full uniform lattice '
+    'pointwise and against scipy.stats CDFs.', E1_NOTE, '4 C10')
+reg('C11', 'E1+E2',
+    'cost-bounded exploration of the scripted stream on VolumeSSASimulator; growth/division invariants on the real output',
+    'Constant volume: all C05 networks plus an order-0/order-3 mix at V in {0.25,0.5,2,4}, plain and safe, directly and through '
+    'py_simulate_model(volume=V): every reference trace (volume-scaled closed-form propensities) within the cost bound is replayed. '
+    'Growth and division: StochasticTimeThresholdVolume / StateDependentVolume x cycle times x scripted division noise x grid steps x '
+    'models without reactions, with reactions, and going extinct mid-run: every trace replayed, and the real output checked against '
+    'the growth law itself (positive, monotone, within one step, ends flagged at the first grid time of division).',
+    E1_NOTE + ' Division reported exactly at the last grid time is not claimed either way.', '4 C11')
+
 def hook_commits():
     try:
         out = subprocess.run(['git', '-C', '/repo', 'log', '--format=%h %s'], stdout=subprocess.PIPE).stdout.decode()
